@@ -39,19 +39,28 @@ def padWrapIndices (n : Nat) (pl pr : Int) (start stop : Int) : List Nat :=
   let len := (pl + n + pr).toNat
   ((PySlice.mk (some start) (some stop)).indices len).map fun (j : Nat) => (((j : Int) - pl) % (n : Int)).toNat
 
+/-- `X if Y.size == 0 … elif …: concatenate([X, Y], axis=-2)` of `wrapped_crop_2d` -/
+def vcatOr {α} (A B : List (List α)) : Except String (List (List α)) :=
+  if size2 A = 0 then .ok B else if size2 B = 0 then .ok A else vcat A B
+
+/-- the final `if CD.size == 0: return AB; if AB.size == 0: return CD; return concatenate([AB, CD], axis=-1)` -/
+def hcatOr {α} (AB CD : List (List α)) : Except String (List (List α)) :=
+  if size2 CD = 0 then .ok AB else if size2 AB = 0 then .ok CD else hcat AB CD
+
+/-- the block assembly of `wrapped_crop_2d` from the four index lists (rows `a`, `c`; columns `b`, `d`) -/
+def assemble {α} (x : Nat → Nat → α) (ai ci bi di : List Nat) : Except String (List (List α)) :=
+  match vcatOr (take2 x ai bi) (take2 x ci bi) with
+  | .error e => .error e
+  | .ok AB =>
+    match vcatOr (take2 x ai di) (take2 x ci di) with
+    | .error e => .error e
+    | .ok CD => hcatOr AB CD
+
 /-- `wrapped_crop_2d(array, corner, size)` on an `n0 × n1` array -/
 def wrappedCrop2d {α} (x : Nat → Nat → α) (n0 n1 : Nat) (corner size : Int × Int) : Except String (List (List α)) :=
   let upper := upperCorner corner.1 size.1 corner.2 size.2
   match wrappedSlices corner.1 upper.1 n0, wrappedSlices corner.2 upper.2 n1 with
-  | .ok (a, c), .ok (b, d) =>
-    let ai := a.indices n0; let ci := c.indices n0; let bi := b.indices n1; let di := d.indices n1
-    let A := take2 x ai bi; let B := take2 x ci bi; let D := take2 x ci di; let C := take2 x ai di
-    do
-      let AB ← if size2 A = 0 then pure B else if size2 B = 0 then pure A else vcat A B
-      let CD ← if size2 C = 0 then pure D else if size2 D = 0 then pure C else vcat C D
-      if size2 CD = 0 then pure AB
-      else if size2 AB = 0 then pure CD
-      else hcat AB CD
+  | .ok (a, c), .ok (b, d) => assemble x (a.indices n0) (c.indices n0) (b.indices n1) (d.indices n1)
   | _, _ =>
     -- `except RuntimeError`: pad both axes periodically and slice
     let p0 := padAmounts corner.1 n0 size.1
